@@ -22,7 +22,8 @@ func init() {
 	register(&propDef{
 		ID: "C11", Level: "exploration",
 		Families: []family{
-			{Name: "corrupting-transport", Fn: scnC11, Weight: 1},
+			{Name: "corrupting-transport", Fn: scnC11, Weight: 3},
+			{Name: "l3-daemon-survives", Fn: scnC11L3, Weight: 1},
 		},
 		Rule: "3-8 lines per run, each a valid message of a random form damaged by a taped corruption fault (truncate at a token boundary / at a random byte, drop bytes incl. the newline so that two messages splice, " +
 			"duplicate a segment, prefix/suffix junk, keyword case change, bit flip, invalid UTF-8, NUL, quotes, 64 KiB line, purely random bytes) with PID token in {digits, empty, 0, negative, non-numeric, huge}; " +
@@ -34,10 +35,16 @@ func init() {
 
 var c11Placeholders = map[string]bool{"unknown": true, "root": true, "unknown reason": true, "certificate invalid": true, "IP": true}
 
-func corrupt(t *simrt.Tape, rc *RunCtx, m *SshdMsg, next *SshdMsg) (line string, kind string) {
+func corrupt(t *simrt.Tape, rc *RunCtx, m *SshdMsg, next *SshdMsg, nonPositivePID bool) (line string, kind string) {
 	msg := m.Msg
 	pid := m.PID
-	switch t.Choose(7, "pidkind") {
+	pk := t.Choose(7, "pidkind")
+	if !nonPositivePID && (pk == 1 || pk == 2) {
+		// in the assembled daemon an accepted login with a PID <= 0 is an invalid login, which
+		// stops the audit processor by design (C15/C08); that family keeps to other tokens
+		pk = 3
+	}
+	switch pk {
 	case 0:
 		pid = ""
 	case 1:
@@ -183,7 +190,7 @@ func scnC11(rc *RunCtx) {
 	for i := 0; i < n; i++ {
 		m := GenSshdMsg(t, "", i+1)
 		nx := GenSshdMsg(t, "", i+50)
-		l, k := corrupt(t, rc, m, nx)
+		l, k := corrupt(t, rc, m, nx, true)
 		lines = append(lines, sent{l, k})
 	}
 	final := GenSshdMsg(t, []string{"accepted-password", "accepted-cert", "invalid-user", "cert-invalid"}[t.Choose(4, "final")], 99)
@@ -329,4 +336,76 @@ func asciiSkeleton(x string) string {
 		}
 	}
 	return string(b)
+}
+
+// scnC11L3: the same corrupted lines on the sshd pipe of the assembled daemon, mixed with
+// a correlated session: the daemon must keep running, and the valid traffic is processed.
+func scnC11L3(rc *RunCtx) {
+	t := rc.Spec
+	k := NewKaudit()
+	w := &L1World{}
+	pid := 9300 + t.Choose(100, "pid")
+	s := &Session{Ses: "880", PID: pid, UID: 1000, Kind: "ssh"}
+	s.Login = GenLogin(t, pid, 1)
+	s.Events = append(s.Events, k.Login(s.Ses, pid, s.UID), GenAction(t, k, s.Ses, pid, s.UID))
+	w.Sessions = []*Session{s}
+	h := &History{W: w}
+	if err := w.Prepare(); err != nil {
+		rc.Abort("world: %v", err)
+		return
+	}
+	var sshdTL, auditTL []TLItem
+	n := 2 + t.Choose(6, "nlines")
+	var hs []string
+	ms := 0
+	for i := 0; i < n; i++ {
+		m := GenSshdMsg(t, "", i+1)
+		nx := GenSshdMsg(t, "", i+50)
+		l, kind := corrupt(t, rc, m, nx, false)
+		if len(l) > 4000 {
+			l = l[:4000] + "\n" // keep the L3 run short; long lines are covered by the other family
+		}
+		hs = append(hs, kind)
+		sshdTL = append(sshdTL, TLItem{AtMs: ms, Kind: "raw", Raw: l})
+		ms += 10
+	}
+	sshdTL = append(sshdTL, TLItem{AtMs: ms, Kind: "login", S: 0})
+	auditTL = append(auditTL, TLItem{AtMs: ms + 10, Kind: "event", S: 0, E: 0}, TLItem{AtMs: ms + 20, Kind: "event", S: 0, E: 1})
+	p := newPipeline(rc, 3, h, sshdTL, auditTL)
+	p.Knobs["bufio"] = []int{4096, 16, 64}[t.Choose(3, "knob.bufio")]
+	pol := pipelinePolicy(rc)
+	if err := p.Start(); err != nil {
+		rc.Abort("start: %v", err)
+		return
+	}
+	ok := p.Run(p.worldDone, time.Duration(ms+3000)*time.Millisecond, 100*time.Millisecond, 200000)
+	if ok {
+		ok = p.Run(nil, rc.SimNow()+3*time.Second, 100*time.Millisecond, 200000)
+	}
+	rc.CaseKey(strings.Join(hs, ","), pid, len(sshdTL))
+	rc.R.NonTrivial = true
+	rc.R.Sample = map[string]any{"corruptions": hs, "policy": pol, "written": len(p.Out), "daemon_returned": p.Returned, "error": fmt.Sprint(p.RetErr)}
+	rc.Cleanup(func() { p.teardown() })
+	if !ok {
+		rc.Abort("run did not finish: %v", rc.Sim.Live())
+		return
+	}
+	if len(rc.Sim.Panics) > 0 {
+		rc.Fail("C11", "panic", "a corrupted sshd line panicked the daemon: %s", rc.Sim.Panics[0].Value)
+		return
+	}
+	if p.Returned {
+		rc.Fail("C11", "pipeline-stopped", "the daemon stopped with %v after corrupted sshd lines %v", p.RetErr, hs)
+		return
+	}
+	acts := 0
+	for _, e := range p.Out {
+		if e.Type == "UserAction" && e.AuditID == s.Ses {
+			acts++
+		}
+	}
+	if acts != 2 {
+		rc.Fail("C11", "pipeline-not-working-afterwards", "after corrupted sshd lines %v the valid login and its session produced %d of 2 UserActions", hs, acts)
+	}
+	p.Shutdown()
 }
